@@ -12,14 +12,14 @@ import SFModel.Basic
 
 namespace SF
 
-structure Arr where
+structure HArr where
   buf : Nat
   writeable : Bool
 deriving Repr, DecidableEq, Inhabited
 
 structure Heap where
   bufs : List (List Int)          -- buffer contents by buffer id
-  arrs : List Arr                 -- array objects by id
+  arrs : List HArr                 -- array objects by id
   conts : List (List Nat)         -- containers: the arrays each one references
 deriving Repr, DecidableEq, Inhabited
 
@@ -35,7 +35,7 @@ deriving Repr, DecidableEq
 
 namespace Heap
 
-def arr? (h : Heap) (a : Nat) : Option Arr := h.arrs[a]?
+def arr? (h : Heap) (a : Nat) : Option HArr := h.arrs[a]?
 
 /-- no array object aliasing buffer `b` is writeable -/
 def bufFrozen (h : Heap) (b : Nat) : Bool := h.arrs.all fun x => x.buf != b || !x.writeable
